@@ -44,12 +44,43 @@ Theorem msg_assign_fresh o hr c v v' :
   msg_assign o hr c v = (v', true) ->
   exists m, decode_message_gen o hr c = Ok m /\ v' = mkmv (m_hash m) (Some m) /\ hr = Ok (m_hash m).
 Proof.
-  unfold msg_assign, msg_assign_res, decode_message_gen.
+  unfold msg_assign, msg_assign_res, decode_message_gen, decode_message_body.
   destruct (is_library_cell c); [intros E; discriminate|].
   destruct hr as [h|e|p]; [|intros E; discriminate|intros E; discriminate].
   cbn [bind].
   destruct (parse_message o (open c)) as [[[[i ini] r] b]|e|p]; intros E; try discriminate.
   injection E as <-. cbn [bind]. eexists. split; [reflexivity|]. split; reflexivity.
+Qed.
+
+(** *** what Hash(true) leaves in the receiver *)
+Lemma clear_std_anycast_idem a : clear_std_anycast (clear_std_anycast a) = clear_std_anycast a.
+Proof. destruct a; reflexivity. Qed.
+
+(* the identity hash is never written; the normalised hash is the same when
+   asked again; both after any number of Hash(_) calls *)
+Theorem after_hash_observables H b m n :
+  m_hash (after_hash b m) = m_hash m /\
+  msg_hash H n (after_hash b m) = msg_hash H n m.
+Proof.
+  destruct b; [|split; reflexivity]. split; [reflexivity|].
+  unfold msg_hash, after_hash. cbn [m_info m_hash m_body]. destruct n; cbn [negb]; [|reflexivity].
+  destruct (m_info m) as [| s d f |]; cbn [clear_info_anycast]; try reflexivity.
+  unfold norm_cell, norm_info_bits. rewrite clear_std_anycast_idem. reflexivity.
+Qed.
+
+(* the only thing that changes: the anycast of an addr_std destination of an
+   external-in message is gone *)
+Theorem after_hash_receiver m :
+  after_hash false m = m /\
+  m_info (after_hash true m) = clear_info_anycast (m_info m) /\
+  m_init (after_hash true m) = m_init m /\ m_body (after_hash true m) = m_body m /\
+  m_body_ref (after_hash true m) = m_body_ref m /\
+  ((forall s any wc x f, m_info m <> IExtIn s (AStd (Some any) wc x) f) -> after_hash true m = m).
+Proof.
+  repeat split. intros Hn. unfold after_hash. destruct m as [i ini r b h]. cbn [m_info] in *.
+  f_equal. destruct i as [| s d f |]; try reflexivity. cbn [clear_info_anycast].
+  destruct d as [| l | [any|] wc x | any len wc x]; try reflexivity.
+  exfalso. eapply Hn. reflexivity.
 Qed.
 
 (** *** the cached-source design (seeded mutant C16-r2m2), refuted *)
